@@ -11,6 +11,8 @@ package main
 //           initerr <msg> when the program does not load
 
 import (
+	"bytes"
+	"io"
 	"fmt"
 	"math"
 	ghttp "net/http"
@@ -104,6 +106,15 @@ func (d *storeDebugger) snap(head string) {
 				sb.WriteString(" " + stVal(c.ObjectStatus))
 			case "@obj.response":
 				sb.WriteString(" " + stVal(c.ObjectResponse))
+			case "@obj.body":
+				// what `synthetic` / `synthetic.base64` write: ctx.Object.Body (read and rewound)
+				if c.Object == nil || c.Object.Body == nil {
+					sb.WriteString(" (S \"\" 1 0)")
+				} else {
+					b, _ := io.ReadAll(c.Object.Body)
+					c.Object.Body = io.NopCloser(bytes.NewReader(b))
+					sb.WriteString(" (S " + hx(string(b)) + " 0 0)")
+				}
 			case "@workspace":
 				// the accounting counter `set` / `add` of a request header charges (Gen/StoreEffects.v: Set, Add)
 				sb.WriteString(" (I " + u64(uint64(c.RequestWorkspaceBytes)) + " 0)")
